@@ -361,6 +361,8 @@ func (p *Program) knownPure(key string) bool {
 		"(*github.com/WuKongIM/WuKongIM/pkg/wklog", "github.com/WuKongIM/WuKongIM/pkg/wklog", "go.uber.org/zap", "(*go.uber.org/zap", "(go.uber.org/zap", "log.", "(*log.",
 		// external storage engine: its calls return unconstrained values and never write WuKongIM's own heap objects
 		"github.com/cockroachdb/pebble",
+		// snowflake id generator: returns an arbitrary int64 (no monotonicity is assumed)
+		"github.com/bwmarrin/snowflake",
 		"context.", "time.", "hash/crc32.", "hash/fnv.", "hash/maphash.", "math/rand"} {
 		if strings.HasPrefix(key, pre) {
 			return true
